@@ -9,6 +9,7 @@ import GM.Spec.UrlEsc
 import GM.Proof.UrlEscape
 import GM.Proof.UrlDecode
 import GM.Proof.Resolve
+import GM.Proof.ResolveAll
 import GM.Proof.LinkRef
 import GM.Proof.Filter
 import GM.Proof.FilterInv
@@ -29,11 +30,11 @@ theorem decode_escapeHTML (v : Bytes) : htmlDecode4 (escapeHTML v) = v := Proof.
 /-! ### URLEscape -/
 
 /-- `URLEscape(v, false)` is the escaping loop alone; `URLEscape(v, true)` first unescapes backslashes and
-    resolves numeric and named references, then runs the same loop. So every law below about
-    `urlEscapeRaw` on all byte strings covers both modes. -/
+    resolves numeric and named references — in ONE pass since 65e7267 (`unescapeAndResolve`) — then runs the
+    same loop. So every law below about `urlEscapeRaw` on all byte strings covers both modes. -/
 theorem urlEscape_modes (v : Bytes) :
     urlEscape v false = urlEscapeRaw v ∧
-    urlEscape v true = urlEscapeRaw (resolveEntities (resolveNumeric (unescapePunct v))) := ⟨rfl, rfl⟩
+    urlEscape v true = urlEscapeRaw (unescapeAndResolve v) := ⟨rfl, rfl⟩
 
 /-- URLEscape output (either mode, any input bytes) contains no byte ≤ 0x20 (space, C0 controls), no 0x7f,
     no `"`, `<`, `>`. (Bytes ≥ 0x80 that cannot start a UTF-8 sequence are copied as they are, so the output
@@ -51,8 +52,7 @@ theorem urlEscape_ascii_of_valid (v : Bytes) (hv : validUtf8 v = true) : isAscii
     three resolvers keep valid UTF-8 valid (next section). -/
 theorem urlEscape_ascii_of_valid_resolving (v : Bytes) (hv : validUtf8 v = true) :
     isAscii (urlEscape v true) = true :=
-  Proof.urlEscapeRaw_ascii_of_valid _
-    (Proof.resolveEntities_valid _ (Proof.resolveNumeric_valid _ (Proof.unescapePunct_valid _ hv)))
+  Proof.urlEscapeRaw_ascii_of_valid _ (Proof.unescapeAndResolve_valid _ hv)
 
 /-- non-vacuity + test: "é ü" is valid UTF-8 and its escape is ASCII -/
 example : validUtf8 [0xC3, 0xA9, 32, 0xC3, 0xBC] = true ∧
@@ -81,10 +81,8 @@ example : isHexDigit 52 = true ∧ isHexDigit 70 = true ∧
     resolution the same holds relative to the resolved text. -/
 theorem urlEscape_decode (v : Bytes) (hv : validUtf8 v = true) :
     pctDecode (urlEscape v false) = pctDecode v ∧
-    pctDecode (urlEscape v true) = pctDecode (resolveEntities (resolveNumeric (unescapePunct v))) :=
-  ⟨Proof.urlEscapeRaw_decode v hv,
-   Proof.urlEscapeRaw_decode _
-     (Proof.resolveEntities_valid _ (Proof.resolveNumeric_valid _ (Proof.unescapePunct_valid _ hv)))⟩
+    pctDecode (urlEscape v true) = pctDecode (unescapeAndResolve v) :=
+  ⟨Proof.urlEscapeRaw_decode v hv, Proof.urlEscapeRaw_decode _ (Proof.unescapeAndResolve_valid _ hv)⟩
 
 /-- non-vacuity + test: "50% é%41" is valid, escapes to "50%25%20%C3%A9%41", both decode to "50% éA" -/
 example : validUtf8 (strBytes "50% é%41") = true ∧
